@@ -95,7 +95,7 @@ static int cl_blk_dl(int srv, uint16_t idx, uint8_t sub, const uint8_t *d, uint3
     uint32_t nseg_total = (len + 6) / 7;
     while (done < nseg_total) {              /* done = segments acknowledged so far */
         uint32_t inblk = nseg_total - done > blksize ? blksize : nseg_total - done, k;
-        if (++guard > 4000) CL_ERR("block download does not make progress");
+        if (++guard > 4000 + (int)(len / 7)) CL_ERR("block download does not make progress");
         for (k = 1; k <= inblk; k++) {
             uint32_t s = done + k - 1, off = s * 7, n = len - off > 7 ? 7 : len - off; int last = (s + 1 == nseg_total);
             int drop = 0;
@@ -191,7 +191,7 @@ static int cl_blk_ul(int srv, uint16_t idx, uint8_t sub, uint8_t blksize, uint8_
         }
         /* segments beyond ackn are treated as lost; a last flag among them does not count */
         blk++; cl_blk_blocks = blk;
-        if (blk > 5000) CL_ERR("block upload does not terminate");
+        if ((uint32_t)blk > 5000u + cap) CL_ERR("block upload does not terminate");
         memset(f, 0, 8); f[0] = 0xA2; f[1] = (uint8_t)ackn; f[2] = (uint8_t)newbs; bs = (uint8_t)newbs;
         cl_send(srv, f);
         if (finished) break;
